@@ -247,13 +247,13 @@ func (a *Analyzer) AnalyzeFunc(fn *ssa.Function, spec FuncSpec, record bool) (re
 			}
 			res.Ret = joinValues(res.Ret, r.ret)
 			for _, i := range ptrParams {
+				if first && r.mem.read[objOf(i)] && !containsInt(res.Read, i) {
+					res.Read = append(res.Read, i)
+				}
 				if v, ok := r.mem.load(&Ptr{Obj: objOf(i)}); ok {
 					res.Out[i] = joinValues(res.Out[i], v)
 					if first && r.mem.written[objOf(i)] && !containsInt(res.Written, i) {
 						res.Written = append(res.Written, i)
-					}
-					if first && r.mem.read[objOf(i)] && !containsInt(res.Read, i) {
-						res.Read = append(res.Read, i)
 					}
 				}
 			}
